@@ -100,6 +100,9 @@ pub struct BrokerCfg {
     pub closeok_mode: CloseOkMode,
     /// after a server-initiated connection close: EOF once CloseOk has arrived
     pub eof_after_server_close: bool,
+    /// bytes (whole frames) the server sends right behind OpenOk: the first `.1` of them in the very same
+    /// write as OpenOk, the rest `.2` ns later
+    pub glue_after_open_ok: Option<(Vec<u8>, usize, u64)>,
     pub script: Vec<(Trigger, Action)>,
     /// cut the server->client stream at this absolute offset
     pub s2c_cut: Option<(usize, CutKind)>,
@@ -171,6 +174,7 @@ impl Default for BrokerCfg {
             heartbeat_every_ns: None,
             closeok_mode: CloseOkMode::Later,
             eof_after_server_close: true,
+            glue_after_open_ok: None,
             script: Vec::new(),
             s2c_cut: None,
             s2c_corrupt: None,
@@ -189,6 +193,8 @@ pub enum BrokerEv {
     /// put frames on the mux queue of a channel
     Enqueue { ch: u16, frames: Vec<Vec<u8>>, what: SentKind, epoch: u32 },
     Flush,
+    /// the remainder of `glue_after_open_ok`
+    GlueRest(Vec<u8>),
     Heartbeat,
     Script(usize),
     HsDelay(usize),
@@ -294,6 +300,8 @@ pub struct Broker {
     got_header: bool,
     muxq: BTreeMap<u16, VecDeque<(Vec<u8>, Option<SentKind>, bool)>>,
     flush_scheduled: bool,
+    glue_rest: Option<(Vec<u8>, u64)>,
+    glue_pending: bool,
     pub silent: bool,
     closeok_enqueued: bool,
     open_ok_on_wire: bool,
@@ -355,6 +363,8 @@ impl Broker {
             got_header: false,
             muxq: BTreeMap::new(),
             flush_scheduled: false,
+            glue_rest: None,
+            glue_pending: false,
             silent: false,
             closeok_enqueued: false,
             open_ok_on_wire: false,
@@ -490,6 +500,10 @@ impl Broker {
             self.muxq.clear();
             return;
         }
+        if self.glue_pending {
+            // the second part of the bytes glued to OpenOk goes out first
+            return;
+        }
         let burst = 1 + if self.cfg.mux_burst_max > 1 { simrt::choose("mux_burst", self.cfg.mux_burst_max) } else { 0 };
         let mut out = Vec::new();
         let mut recs: Vec<(usize, usize, SentKind)> = Vec::new();
@@ -538,10 +552,19 @@ impl Broker {
         if !out.is_empty() {
             let stamp = simrt::stamp();
             let now = simrt::now_ns();
+            let mut open_ok_out = false;
             for (s, e, k) in recs {
+                open_ok_out |= k == SentKind::Handshake("open-ok");
                 self.sent.push(SentRec { stamp, time_ns: now, s2c_start: s, s2c_end: e, kind: k });
             }
             self.push_s2c(&out);
+            if open_ok_out {
+                if let Some((rest, gap)) = self.glue_rest.take() {
+                    self.glue_pending = true;
+                    simrt::schedule_in(gap, true, "broker.glue", Box::new(BrokerEv::GlueRest(rest)));
+                    return;
+                }
+            }
         }
         if self.muxq.values().any(|q| !q.is_empty()) {
             let gap = if self.cfg.mux_gap_max_ns > 0 {
@@ -728,6 +751,15 @@ impl Broker {
                 }
             }
             BrokerEv::Flush => self.flush(),
+            BrokerEv::GlueRest(bytes) => {
+                self.glue_pending = false;
+                if !self.silent && !self.s2c_closed {
+                    let start = self.s2c.len();
+                    self.sent.push(SentRec { stamp: simrt::stamp(), time_ns: simrt::now_ns(), s2c_start: start, s2c_end: start + bytes.len(), kind: SentKind::Handshake("glue-rest") });
+                    self.push_s2c(&bytes);
+                }
+                self.schedule_flush(0);
+            }
             BrokerEv::Heartbeat => {
                 if !self.silent && !self.s2c_closed && self.phase != Phase::Closed {
                     let mut b = Vec::new();
@@ -1262,7 +1294,17 @@ impl Broker {
                     self.phase = Phase::Open;
                     let t = self.think();
                     let ok = connection::OpenOk { known_hosts: String::new() };
-                    self.enqueue_after(t, 0, vec![Self::m(0, AMQPClass::Connection(Cn::OpenOk(ok)))], SentKind::Handshake("open-ok"));
+                    let mut okf = Self::m(0, AMQPClass::Connection(Cn::OpenOk(ok)));
+                    if let Some((bytes, cut, gap)) = self.cfg.glue_after_open_ok.clone() {
+                        let _ = gap;
+                        let cut = cut.min(bytes.len());
+                        okf.extend_from_slice(&bytes[..cut]);
+                        if cut < bytes.len() {
+                            // sent `gap` after the OpenOk write; nothing else goes out in between (flush)
+                            self.glue_rest = Some((bytes[cut..].to_vec(), gap));
+                        }
+                    }
+                    self.enqueue_after(t, 0, vec![okf], SentKind::Handshake("open-ok"));
                     self.after_open();
                 }
                 Cn::Close(_) => {
